@@ -416,21 +416,25 @@ func run(cfg Config, sources []Source, dir string) Result {
 	}
 	res.R, res.M, res.I = ex.ReadLines(), ex.MatchedLines(), ex.IgnoredLines()
 	res.ReadErrs = batcher.ReadErrors()
-	colorMu.Lock()
-	color.Enabled = false
-	res.Summary = helpers.FWriteExtractorSummary(ex, 0)
-	// cmd/filter.go: a single pair highlights the whole match, otherwise the groups are highlighted
-	color.Enabled = true
-	for i := range res.Matches {
-		m := all[i].m
-		groups := m.Indices
-		if len(groups) != 2 {
-			groups = groups[2:]
+	func() {
+		colorMu.Lock()
+		defer func() { // WrapIndices panics on indices that are no longer those of the line (a held match overwritten):
+			color.Enabled = false // the lock must not stay held, and the panic is this case's outcome
+			colorMu.Unlock()
+		}()
+		color.Enabled = false
+		res.Summary = helpers.FWriteExtractorSummary(ex, 0)
+		// cmd/filter.go: a single pair highlights the whole match, otherwise the groups are highlighted
+		color.Enabled = true
+		for i := range res.Matches {
+			m := all[i].m
+			groups := m.Indices
+			if len(groups) != 2 {
+				groups = groups[2:]
+			}
+			res.Matches[i].Wrapped = hex.EncodeToString([]byte(color.WrapIndices(m.Line, groups)))
 		}
-		res.Matches[i].Wrapped = hex.EncodeToString([]byte(color.WrapIndices(m.Line, groups)))
-	}
-	color.Enabled = false
-	colorMu.Unlock()
+	}()
 	res.LogTotal = int(atomic.LoadInt64(&fac.calls))
 	for _, rd := range readers {
 		res.Delivered = append(res.Delivered, hex.EncodeToString(rd.delivered))
